@@ -16,6 +16,7 @@ import tgen
 
 PROP = "C10"
 LEVEL = "proof"
+INCLUDE = ['w4s_c10']   # wave 4 (lead, integration): generated skeletons of hosvd mode loop / tucker_als main loop: bridge theorems + replay streams
 GEN_UNITS = ["GenHosvd"]      # control-flow skeleton of hosvd's mode loop (tools/pyx2v_skel.py): Props/C10Gen.v is stated over it
 SHARD = 6
 COQ_TARGETS = ["Props/C10.vo", "Props/C10Loop.vo", "Props/C10W3b.vo", "Props/C10W4.vo", "Props/C10Gen.vo", "Proofs/W4SHosvd.vo", "Proofs/W4SHosvdR.vo", "Model/C10Check.vo", "Model/Harness.vo"]
